@@ -270,9 +270,11 @@ structure Quirks where
 def Quirks.asIs : Quirks := ⟨true, true, true⟩
 def Quirks.none : Quirks := ⟨false, false, false⟩
 
-def kindOfSet (isSet : Bool) : Kind := if isSet then .set else .list
-/-- `super().append(x)` / `super().add(x)` -/
-def rawAdd (isSet : Bool) (c : List Nat) (x : Nat) : List Nat := storeAdd (kindOfSet isSet) c x
+/-- `super().append(x)` / `super().add(x)`. `key o` is the value object `o` compares by (`==` / `hash`): a list
+stores by position and identity, a set keeps the FIRST of several elements that compare equal (Python set
+semantics); with `key = id` all objects are pairwise unequal -/
+def rawAdd (key : Nat → Nat) (isSet : Bool) (c : List Nat) (x : Nat) : List Nat :=
+  if isSet then (if c.any (fun y => key y == key x) then c else c ++ [x]) else c ++ [x]
 
 /-- an iterable computed from the live container, usually lazily: it reads the container when it is consumed -/
 inductive View where
@@ -284,12 +286,12 @@ inductive View where
   deriving Repr, DecidableEq
 
 /-- what the iterable yields when it is consumed while the container holds `c` -/
-def View.eval : View → List Nat → List Nat
+def View.eval (key : Nat → Nat) : View → List Nat → List Nat
   | .filt keep, c => c.filter (fun x => keep.contains x)
   | .rev, c => c.reverse
   | .iter, c => c
   | .chain xs, c => c ++ xs
-  | .keys, c => c.foldl (rawAdd true) []
+  | .keys, c => c.foldl (rawAdd key true) []
 
 /-- the value handed to `__set__`: the live container itself, another collection, or an iterable over the live
 container -/
@@ -298,6 +300,9 @@ inductive Assigned where
   | other (xs : List Nat)
   | lazyOf (v : View)
   deriving Repr, DecidableEq
+
+/-- no two elements compare equal (what a Python set guarantees of its elements) -/
+def KeyDistinct (key : Nat → Nat) (c : List Nat) : Prop := c.Pairwise (fun a b => key a ≠ key b)
 
 structure CState where
   c : List Nat       -- contents (a set keeps insertion order here and is observed sorted)
@@ -334,59 +339,59 @@ def pySetItem (c : List Nat) (i : Int) (x : Nat) : List Nat :=
   match pyIndex c.length i with | some k => c.set k x | none => c
 
 /-- `_add_item(x)`: `_on_add` (hook), then the raw add -/
-def addItemC (isSet : Bool) (σ : CState) (x : Nat) : CState := ⟨rawAdd isSet σ.c x, σ.calls ++ [x]⟩
+def addItemC (key : Nat → Nat) (isSet : Bool) (σ : CState) (x : Nat) : CState := ⟨rawAdd key isSet σ.c x, σ.calls ++ [x]⟩
 
 /-- the order in which `__set__` walks the assigned value -/
-def walkOrder (Q : Quirks) (isSet : Bool) (xs : List Nat) : List Nat :=
-  if Q.setterHashOrder || isSet then hashOrder xs else xs
+def walkOrder (Q : Quirks) (xs : List Nat) : List Nat :=
+  if Q.setterHashOrder then hashOrder xs else xs
 
 /-- `PropertyDescriptor.__set__(obj, value)` on a field that already holds its monitored container -/
-def setterC (Q : Quirks) (isSet : Bool) (σ : CState) (v : Assigned) : CState :=
+def setterC (key : Nat → Nat) (Q : Quirks) (isSet : Bool) (σ : CState) (v : Assigned) : CState :=
   let items := match v with
-    | .same => if Q.setterClearsAlias then [] else walkOrder Q isSet σ.c   -- as is: read after `attr._clear()`
-    | .other xs => walkOrder Q isSet xs
+    | .same => if Q.setterClearsAlias then [] else walkOrder Q σ.c   -- as is: read after `attr._clear()`
+    | .other xs => walkOrder Q xs
     -- repaired: `list(value)` is taken before `_clear()`; with the quirk the iterable is consumed after it
-    | .lazyOf v => walkOrder Q isSet (v.eval (if Q.setterClearsAlias then [] else σ.c))
-  items.foldl (addItemC isSet) ⟨[], σ.calls⟩
+    | .lazyOf v => walkOrder Q (v.eval key (if Q.setterClearsAlias then [] else σ.c))
+  items.foldl (addItemC key isSet) ⟨[], σ.calls⟩
 
 /-- `list.__iadd__` / `set.__ior__` -/
-def inplaceC (Q : Quirks) (isSet : Bool) (σ : CState) (xs : List Nat) : CState :=
-  if Q.inplaceBypass then ⟨xs.foldl (rawAdd isSet) σ.c, σ.calls⟩ else xs.foldl (addItemC isSet) σ
+def inplaceC (key : Nat → Nat) (Q : Quirks) (isSet : Bool) (σ : CState) (xs : List Nat) : CState :=
+  if Q.inplaceBypass then ⟨xs.foldl (rawAdd key isSet) σ.c, σ.calls⟩ else xs.foldl (addItemC key isSet) σ
 
-def stepC (Q : Quirks) (isSet : Bool) (σ : CState) : COp → CState
-  | .append x => addItemC isSet σ x
-  | .extend xs => xs.foldl (addItemC isSet) σ
+def stepC (key : Nat → Nat) (Q : Quirks) (isSet : Bool) (σ : CState) : COp → CState
+  | .append x => addItemC key isSet σ x
+  | .extend xs => xs.foldl (addItemC key isSet) σ
   | .insert i x => ⟨pyInsert σ.c i x, σ.calls ++ [x]⟩       -- `_on_add`, then `list.insert`
   | .setitem i x => ⟨pySetItem σ.c i x, σ.calls ++ [x]⟩     -- `_on_add`, then `list.__setitem__`
-  | .assign xs => setterC Q isSet σ (.other xs)
-  | .assignSelf => setterC Q isSet σ .same
-  | .assignView v => setterC Q isSet σ (.lazyOf v)
-  | .iadd xs => setterC Q isSet (inplaceC Q isSet σ xs) .same   -- `t = a.f.__iadd__(xs); a.f = t`
-  | .iaddAlias xs => inplaceC Q isSet σ xs
+  | .assign xs => setterC key Q isSet σ (.other xs)
+  | .assignSelf => setterC key Q isSet σ .same
+  | .assignView v => setterC key Q isSet σ (.lazyOf v)
+  | .iadd xs => setterC key Q isSet (inplaceC key Q isSet σ xs) .same   -- `t = a.f.__iadd__(xs); a.f = t`
+  | .iaddAlias xs => inplaceC key Q isSet σ xs
 
-def runC (Q : Quirks) (isSet : Bool) (σ : CState) (ops : List COp) : CState := ops.foldl (stepC Q isSet) σ
+def runC (key : Nat → Nat) (Q : Quirks) (isSet : Bool) (σ : CState) (ops : List COp) : CState := ops.foldl (stepC key Q isSet) σ
 
 /-- **Spec.** Python list / set semantics for the contents; every element that becomes part of the field enters
 the log (is asserted, "as if appended individually") -/
-def specStepC (isSet : Bool) (σ : CState) : COp → CState
-  | .append x => ⟨rawAdd isSet σ.c x, σ.calls ++ [x]⟩
-  | .extend xs => ⟨xs.foldl (rawAdd isSet) σ.c, σ.calls ++ xs⟩
+def specStepC (key : Nat → Nat) (isSet : Bool) (σ : CState) : COp → CState
+  | .append x => ⟨rawAdd key isSet σ.c x, σ.calls ++ [x]⟩
+  | .extend xs => ⟨xs.foldl (rawAdd key isSet) σ.c, σ.calls ++ xs⟩
   | .insert i x => ⟨pyInsert σ.c i x, σ.calls ++ [x]⟩
   | .setitem i x => ⟨pySetItem σ.c i x, σ.calls ++ [x]⟩
-  | .assign xs => ⟨xs.foldl (rawAdd isSet) [], σ.calls ++ xs⟩
+  | .assign xs => ⟨xs.foldl (rawAdd key isSet) [], σ.calls ++ xs⟩
   | .assignSelf => σ
-  | .assignView v => ⟨(v.eval σ.c).foldl (rawAdd isSet) [], σ.calls ++ v.eval σ.c⟩   -- evaluated BEFORE the assignment
-  | .iadd xs => ⟨xs.foldl (rawAdd isSet) σ.c, σ.calls ++ xs⟩
-  | .iaddAlias xs => ⟨xs.foldl (rawAdd isSet) σ.c, σ.calls ++ xs⟩
+  | .assignView v => ⟨(v.eval key σ.c).foldl (rawAdd key isSet) [], σ.calls ++ v.eval key σ.c⟩   -- evaluated BEFORE the assignment
+  | .iadd xs => ⟨xs.foldl (rawAdd key isSet) σ.c, σ.calls ++ xs⟩
+  | .iaddAlias xs => ⟨xs.foldl (rawAdd key isSet) σ.c, σ.calls ++ xs⟩
 
-def specC (isSet : Bool) (σ : CState) (ops : List COp) : CState := ops.foldl (specStepC isSet) σ
+def specC (key : Nat → Nat) (isSet : Bool) (σ : CState) (ops : List COp) : CState := ops.foldl (specStepC key isSet) σ
 
 /-- operations outside the triggers of the quirks that are switched on -/
-def COp.okFor (Q : Quirks) (isSet : Bool) : COp → Bool
-  | .assign xs => isSet || !Q.setterHashOrder || hashOrder xs == xs
-  | .assignSelf => !Q.setterClearsAlias && (isSet || !Q.setterHashOrder)
-  | .assignView _ => !Q.setterClearsAlias && (isSet || !Q.setterHashOrder)
-  | .iadd _ => !Q.setterClearsAlias && (isSet || !Q.setterHashOrder)
+def COp.okFor (Q : Quirks) : COp → Bool
+  | .assign xs => !Q.setterHashOrder || hashOrder xs == xs
+  | .assignSelf => !Q.setterClearsAlias && !Q.setterHashOrder
+  | .assignView _ => !Q.setterClearsAlias && !Q.setterHashOrder
+  | .iadd _ => !Q.setterClearsAlias && !Q.setterHashOrder
   | .iaddAlias _ => !Q.inplaceBypass
   | _ => true
 
@@ -401,8 +406,8 @@ def COp.applicable (isSet : Bool) : COp → Bool
 def trigSelfAssign (ops : List COp) : Bool :=
   ops.any fun o => match o with | .assignSelf => true | .assignView _ => true | _ => false
 def trigIadd (ops : List COp) : Bool := ops.any fun o => match o with | .iadd _ => true | _ => false
-def trigListOrder (isSet : Bool) (ops : List COp) : Bool :=
-  !isSet && ops.any fun o => match o with | .assign xs => hashOrder xs != xs | _ => false
+def trigListOrder (ops : List COp) : Bool :=
+  ops.any fun o => match o with | .assign xs => hashOrder xs != xs | _ => false
 def trigBypass (ops : List COp) : Bool := ops.any fun o => match o with | .iaddAlias _ => true | _ => false
 
 /-! ### C16, two owners: a field whose FIRST assignment receives the live container of another instance
@@ -436,14 +441,14 @@ structure TState where
   deriving Repr, DecidableEq
 
 /-- `later` = the written field has a super-property field on the same class that is declared after it -/
-def stepT (Q : Quirks) (T : TQuirks) (later isSet : Bool) (σ : TState) (op : TOp) : TState :=
+def stepT (key : Nat → Nat) (Q : Quirks) (T : TQuirks) (later isSet : Bool) (σ : TState) (op : TOp) : TState :=
   if σ.broke then σ else
   match op with
   | .adopt =>
-    let items := walkOrder Q isSet σ.a.c       -- `values = list(value)`, then clear and re-add with owner `b`
+    let items := walkOrder Q σ.a.c       -- `values = list(value)`, then clear and re-add with owner `b`
     if T.ctorBreaks && later && !items.isEmpty then { σ with broke := true }
     else
-      let c' := items.foldl (rawAdd isSet) []
+      let c' := items.foldl (rawAdd key isSet) []
       if T.adoptShares then
         { σ with a := ⟨c', σ.a.calls⟩, b := ⟨c', σ.b.calls ++ items⟩, shared := true, owner := .B }
       else { σ with b := ⟨c', σ.b.calls ++ items⟩ }
@@ -453,24 +458,24 @@ def stepT (Q : Quirks) (T : TQuirks) (later isSet : Bool) (σ : TState) (op : TO
       -- assignment of a fresh collection: `__set__` does not re-bind, the hook reports to the last accessor
       let tgt := match op with | .assign _ => σ.owner | _ => w
       match tgt with
-      | .A => let a' := stepC Q isSet σ.a op; { σ with a := a', b := ⟨a'.c, σ.b.calls⟩, owner := .A }
-      | .B => let b' := stepC Q isSet σ.b op; { σ with b := b', a := ⟨b'.c, σ.a.calls⟩, owner := .B }
+      | .A => let a' := stepC key Q isSet σ.a op; { σ with a := a', b := ⟨a'.c, σ.b.calls⟩, owner := .A }
+      | .B => let b' := stepC key Q isSet σ.b op; { σ with b := b', a := ⟨b'.c, σ.a.calls⟩, owner := .B }
     else
       match w with
-      | .A => { σ with a := stepC Q isSet σ.a op }
-      | .B => { σ with b := stepC Q isSet σ.b op }
+      | .A => { σ with a := stepC key Q isSet σ.a op }
+      | .B => { σ with b := stepC key Q isSet σ.b op }
 
-def runT (Q : Quirks) (T : TQuirks) (later isSet : Bool) (σ : TState) (ops : List TOp) : TState :=
-  ops.foldl (stepT Q T later isSet) σ
+def runT (key : Nat → Nat) (Q : Quirks) (T : TQuirks) (later isSet : Bool) (σ : TState) (ops : List TOp) : TState :=
+  ops.foldl (stepT key Q T later isSet) σ
 
 /-- **Spec.** every managed field owns its contents: the new instance gets the elements (each asserted for IT), and
 later writes through one field neither show up in the other nor are recorded for the other owner -/
-def specStepT (isSet : Bool) (σ : TState) : TOp → TState
-  | .adopt => { σ with b := ⟨σ.a.c.foldl (rawAdd isSet) [], σ.b.calls ++ σ.a.c⟩ }
-  | .on .A op => { σ with a := specStepC isSet σ.a op }
-  | .on .B op => { σ with b := specStepC isSet σ.b op }
+def specStepT (key : Nat → Nat) (isSet : Bool) (σ : TState) : TOp → TState
+  | .adopt => { σ with b := ⟨σ.a.c.foldl (rawAdd key isSet) [], σ.b.calls ++ σ.a.c⟩ }
+  | .on .A op => { σ with a := specStepC key isSet σ.a op }
+  | .on .B op => { σ with b := specStepC key isSet σ.b op }
 
-def specT (isSet : Bool) (σ : TState) (ops : List TOp) : TState := ops.foldl (specStepT isSet) σ
+def specT (key : Nat → Nat) (isSet : Bool) (σ : TState) (ops : List TOp) : TState := ops.foldl (specStepT key isSet) σ
 
 def TOp.applicable (isSet : Bool) : TOp → Bool
   | .on _ op => op.applicable isSet
